@@ -133,14 +133,15 @@ CHECKS = {
             "covers": {"VerifC03Forged": ["as-head", "as-ancestor", "as-foreign-ref", "id-swap"], "VerifC03LocalWrite": ["allowed", "denied"]},
         }, {"cross_solvers": ["cvc5", "z3-new"], "pkg": ACI, "funcs": ["VerifC03CanAppend"], "covers": {"VerifC03CanAppend": ["decided"]}},
            {"cross_solvers": ["cvc5", "z3-new"], "pkg": ACS, "funcs": ["VerifC03CanAppend"], "covers": {"VerifC03CanAppend": ["decided"]}},
-           {"cross_solvers": ["cvc5", "z3-new"], "pkg": ACO, "funcs": ["VerifC03CanAppend"], "covers": {"VerifC03CanAppend": ["decided"]}},
+           {"pkg": ACO, "funcs": ["VerifC03CanAppend"], "covers": {"VerifC03CanAppend": ["decided"]}},
            {"pkg": ODB, "funcs": ["VerifC03Instance"],
             "covers": {"VerifC03Instance": ["created", "via-sync", "via-direct-channel", "via-topic", "delivered", "local-write-refused"]}}],
         "assumptions": [
             "Dolev-Yao attacker with perfect symbolic cryptography: verify(pub, m, s) <=> s = sign(pub, m); the attacker can sign only with its own key, copy any public field (ids, identity blocks, keys, signatures of honest entries) and re-address entries",
-            "forged author fields: identity block (own / own with the writer's id / copy of the writer's) x key (own / writer's) x signature (own over the content / copied from an honest writer entry / garbage) x clock id; delivered as an announced head or as the ancestor of a colluding writer's entry to a replica with an explicit write list, through the real Sync, replicator, Join, Entry.Verify, ToHashable and the REAL OrbitDBIdentityProvider.VerifyIdentity",
+            "forged author fields: identity block (own / own with the writer's id - with the attacker's own identity signatures, or the id re-signed with the attacker's key and the writer's or the attacker's voucher - / copy of the writer's) x key (own / writer's) x signature (own over the content / copied from an honest writer entry / garbage) x clock id; delivered as an announced head or as the ancestor of a colluding writer's entry to a replica with an explicit write list, through the real Sync, replicator, Join, Entry.Verify, ToHashable and the REAL OrbitDBIdentityProvider.VerifyIdentity",
             "local write by an identity outside / inside the list, under the wildcard, and with the default (creator-only) list",
-            "unit harnesses of the three controllers' CanAppend with a symbolic write list (<= 2 symbolic ids, optional wildcard at any position) and a symbolic author id",
+            "unit harnesses of the three controllers' CanAppend with a symbolic write list (<= 2 ids, each any 1-byte string or the id of identity a / b, optional wildcard at any position) and an author that is genuine (a or b) or forged by b (a's id with b's key and signatures; id re-signed by b with a's voucher copied; a's block copied with b's entry key; a's block without signatures): admitted iff listed AND genuine",
+            "harness identities are well-formed orbitdb identities over the symbolic signature scheme (id = hex of the id key, Signatures.ID = sign(public key, id), Signatures.PublicKey = sign(id key, hex(public key ++ id signature))), so the real VerifyEntryIdentity accepts them and rejects forgeries",
             "instance harness (VerifC03Instance): one real orbitDB instance creates a permissive and a restricted database (ipfs controller with manifest / manifest-less simple controller, either creation order); the write list each store enforces is the one resolved by createStore -> acutils.Resolve from the manifest; a non-writer's entry reaches the instance by manual sync, direct-channel head exchange (monitorDirectChannel) or topic announcement; the non-writer's local write on its own replica must fail",
         ],
         "outside": ["real secp256k1", "identity providers other than orbitdb", "routes load-from-cache and snapshot (they reach the same Join)"],
